@@ -89,20 +89,26 @@ static std::string doIC(const std::vector<std::string>& a) {
     bool withPSVI = false;
     if (scanner.size() > 2 && scanner.substr(scanner.size() - 2) == "+p") { withPSVI = true; scanner = scanner.substr(0, scanner.size() - 2); }
     const std::string& load = a[3];
-    // schema token: MAIN or MAIN:IMPORTED (hex); the imported schema (namespace of the qualified attributes) is written to
-    // a file and the marker @@A@@ in the main schema's xs:import is replaced by its path
-    std::string xsdTok = a[4], impTok;
-    size_t colon = xsdTok.find(':');
-    if (colon != std::string::npos) { impTok = xsdTok.substr(colon + 1); xsdTok = xsdTok.substr(0, colon); }
-    std::string xsd = unhex(xsdTok);
-    std::string impPath;
-    if (!impTok.empty()) {
-        impPath = workDir() + "/a" + std::to_string((long)getpid()) + ".xsd";
-        std::ofstream f(impPath.c_str(), std::ios::binary | std::ios::trunc);
-        f << unhex(impTok);
+    // schema token: MAIN[:IMPORTED1[:IMPORTED2]] (hex); each imported schema (another target namespace) is written to a
+    // file and the marker @@A@@ / @@B@@ in the main schema's xs:import is replaced by its path
+    std::vector<std::string> parts;
+    {
+        std::string tok = a[4];
+        size_t pos = 0, c;
+        while ((c = tok.find(':', pos)) != std::string::npos) { parts.push_back(tok.substr(pos, c - pos)); pos = c + 1; }
+        parts.push_back(tok.substr(pos));
+    }
+    std::string xsd = unhex(parts[0]);
+    std::vector<std::string> impPaths;
+    for (size_t k = 1; k < parts.size(); k++) {
+        std::string path = workDir() + "/" + std::string(1, (char)('a' + (k - 1))) + std::to_string((long)getpid()) + ".xsd";
+        std::ofstream f(path.c_str(), std::ios::binary | std::ios::trunc);
+        f << unhex(parts[k]);
         f.close();
-        size_t p = xsd.find("@@A@@");
-        if (p != std::string::npos) xsd.replace(p, 5, impPath);
+        impPaths.push_back(path);
+        std::string marker = std::string("@@") + (char)('A' + (k - 1)) + "@@";
+        size_t p = xsd.find(marker);
+        if (p != std::string::npos) xsd.replace(p, marker.size(), path);
     }
     std::string xml = unhex(a[5]);
     Collector col;
@@ -161,7 +167,7 @@ static std::string doIC(const std::vector<std::string>& a) {
         return "exc unknown";
     }
     if (!xsdPath.empty()) unlink(xsdPath.c_str());
-    if (!impPath.empty()) unlink(impPath.c_str());
+    for (auto& ip : impPaths) unlink(ip.c_str());
     res = "r";
     if (col.ic.empty()) res += " -";
     for (auto& kv : col.ic) res += " " + kv.first + "*" + std::to_string(kv.second);
